@@ -233,11 +233,7 @@ func (f *Frame) havocAll(cur *blockCur) {
 			ns = ns.set(k, fmt.Sprintf("(store %s %s (select %s %s))", ns.get(k), lo.ref, old.get(k), lo.ref))
 		}
 	}
-	// ghost counters survive
-	g := HeapKey{Name: "G_effects", Sort: "Int"}
-	if _, used := f.c.heapKeys[g.Name]; used {
-		ns = ns.set(g, old.get(g))
-	}
+	// the ghost effect counter is unknown as well: the callee may have had effects
 	cur.st = ns
 }
 
